@@ -109,6 +109,14 @@ REG["C08"] = dict(
     assumptions=["K1: stubs for thrift.Decoder.Decode (header of the page at the current stream position) and FilePages.readDataPageV2 (model page identified by the body bytes)"],
 )
 
+REG["C17"] = dict(
+    harnesses=[H(P, "VerifH_C17_resetRestoresWriter"), H(P, "VerifH_C17_bloomResizeZeroes")],
+    explanation="(K2) concrete-prefix harness on the real writer: newWriter wires the column writers of a two-column nested schema, the real writeRowGroup records one or two row groups (page flushing and the file header are stubbed: no page is buffered), the real writer.reset runs, and every piece of state that feeds the next file's footer (column paths, encodings, types, column-chunk metadata, schema elements) equals a freshly constructed writer's; a row group recorded after Reset names its columns. Counterexamples are re-enacted natively: the same rows through a fresh writer and through Reset must give identical bytes. (K1, part) a bloom-filter buffer retained across row groups is zeroed and correctly sized by resizeBloomFilter whatever it held.",
+    bounds={"quick": "schema {a int64, b{c optional int32}}, 1..2 row groups before Reset; bloom: retained capacity 0..2 blocks of symbolic bytes, 1..60 values", "thorough": "same"},
+    outside=["purego vs assembly builds (assembly has no SSA)", "goroutine identity, encryption nonces", "dictionary reset (K3), key-value metadata order (K5), generic field-by-field reset frame (K1) not built yet", "dirty reusable encode buffers are covered by the garbage-dst clause of the C04 harnesses"],
+    assumptions=["K2: stubs for ColumnWriter.Flush, flushFilterPages, totalRowCount and writer.writeFileHeader (no page data is written)"],
+)
+
 LEVEL_TEXT = "bounded symbolic execution of the real functions (go/ssa of the current /repo tree) with an SMT solver deciding every assertion for all inputs inside the stated bounds; counterexamples are replayed against the natively compiled code before being reported"
 
 def main():
